@@ -91,6 +91,7 @@ class Executor:
         self.shadows = {}
         self.pac = params_as_constants
         self.log = []
+        self.site = 0
 
     # ------------------------------------------------------------------ reference ops
     def ref_ops(self, mid, obs_op, relax=False, as_constants=False):
@@ -439,7 +440,7 @@ class Executor:
         out = {}
         sol = None
         try:
-            sol = P.solve(method=a.get("method", "auto"), strict=bool(a.get("strict", False)), **_solve_kwargs(a))
+            sol = self._call_from_fresh_site(P, dict(method=a.get("method", "auto"), strict=bool(a.get("strict", False)), **_solve_kwargs(a)))
         except BaseException as e:  # noqa: BLE001 - includes injected KeyboardInterrupt
             if isinstance(e, (KeyboardInterrupt, SystemExit)) and not w.fired:
                 raise
@@ -467,6 +468,15 @@ class Executor:
         if noncont and not a.get("strict"):
             rec["ref_relaxed"] = self.ref_ops(op[1], op, relax=True)
         return out
+
+    def _call_from_fresh_site(self, P, kw):
+        """P.solve(**kw) issued from a call site of its own (own file name, own globals): every
+        solve of a history is a different line of the user's program as far as Python's
+        once-per-location warning registry is concerned."""
+        self.site += 1
+        g = {"P": P, "kw": kw}
+        exec(compile("out = P.solve(**kw)", f"<user-op-{self.site}>", "exec"), g)
+        return g["out"]
 
     def _inline(self, m, sh, sol, a):
         """C06 / C07 predicates, computed from the harness's own objects and shadow."""
